@@ -75,6 +75,22 @@ func init() {
 					h.VerifC13Read(ctx, fifo, "f", false)
 					atomic.StoreInt32(&r.done, 1)
 				}()
+			case 'D':
+				// dead on arrival: the session's context is cancelled before the read starts; the file is an
+				// empty regular file.  Whether the first select takes the slot or sees Done, the read is over
+				// at once and must hold nothing afterwards.
+				path := filepath.Join(dir, fmt.Sprintf("f%d", i))
+				os.WriteFile(path, nil, 0o644)
+				ctx, cancel := context.WithCancel(context.Background())
+				cancel()
+				r := &c13read{cancel: cancel, fifo: path, started: true}
+				reads[i] = r
+				u, _ := user.New("verif", "local")
+				h := serverHandlers.NewServerHandler(u, limiter, other)
+				go func() {
+					h.VerifC13Read(ctx, path, "f", false)
+					atomic.StoreInt32(&r.done, 1)
+				}()
 			case 'C':
 				if r := reads[i]; r != nil {
 					r.cancel()
